@@ -25,7 +25,7 @@ def run(patch):
 patches = sys.argv[1:] or sorted(glob.glob("/verif/seeded/*/patch.diff"))
 with ThreadPoolExecutor(8) as ex:
     for patch, res, err in ex.map(run, patches):
-        name = patch.replace("/verif/seeded/", "").replace("/patch.diff", "").replace("/tmp/wt_", "").replace("/tmp/w3_", "").replace("/tmp/w4_", "").replace("/tmp/w5_", "").replace("/tmp/w6_", "").replace("/tmp/w7_", "").replace("/patch_", "_").replace(".diff", "")
+        name = patch.replace("/verif/seeded/", "").replace("/patch.diff", "").replace("/tmp/wt_", "").replace("/tmp/w3_", "").replace("/tmp/w4_", "").replace("/tmp/w5_", "").replace("/tmp/w6_", "").replace("/tmp/w7_", "").replace("/tmp/w8_", "").replace("/patch_", "_").replace(".diff", "")
         if res is None:
             print("%-28s %s" % (name, err)); continue
         if len(res) < 20:
